@@ -215,8 +215,11 @@ class Executor:
 
     # ------------------------------------------------------------------ solver helpers
     def _solver(self):
+        # deterministic budget (resource limit instead of wall-clock time): the paths and VCs that are generated do
+        # not depend on the load of the machine
+        from .solve import set_budget
         s = z3.Solver()
-        s.set('timeout', self.ctx.solver_timeout_ms)
+        set_budget(s, self.ctx.solver_timeout_ms)
         return s
 
     def feasible(self, st: State, extra=None) -> bool:
